@@ -464,8 +464,140 @@ func runC09(c *Ctx) {
 			ok := len(callSites(fn, `^trie\.NewSecure$`)) >= 1
 			c.Ob("C09-R4", "cachingDB."+m+" opens a SecureTrie (keys hashed)", c.FnPos(fn), ok, "")
 		}
+		// reopening a committed root: the recent-tries cache may only serve a trie that still hashes to the requested
+		// root (the committing StateDB keeps mutating the very object that was pushed), and always as a copy -
+		// unless the cache stores private copies in the first place
+		ot := c.Fn("core/state:(*cachingDB).OpenTrie")
+		fo := c.Facts(ot)
+		pushesCopy := false
+		if pt := c.FnOpt("core/state:(*cachingDB).pushTrie"); pt != nil {
+			pushesCopy = true
+			n := 0
+			for _, caller := range c.SrcFns {
+				for _, cs := range callSitesOf(caller, pt) {
+					n++
+					for _, a := range cs.Common().Args[1:] {
+						if strings.Contains(a.Type().String(), "SecureTrie") && methodRecv(a, "Copy") == nil {
+							pushesCopy = false
+						}
+					}
+				}
+			}
+			if n == 0 {
+				pushesCopy = false
+			}
+		}
+		nhit := 0
+		for _, rs := range fo.AcceptingReturns(-1, false) {
+			served := ""
+			for l := range rs.State.lits {
+				if strings.HasPrefix(l, "store:") && strings.Contains(l, ".SecureTrie=") {
+					served = l[strings.Index(l, "=")+1:]
+				}
+			}
+			if served == "" || strings.HasPrefix(served, "trie.NewSecure(") {
+				continue
+			}
+			nhit++
+			isCopy := strings.HasSuffix(served, ".Copy()")
+			src := strings.TrimSuffix(served, ".Copy()")
+			validated := rs.State.lits[src+".Hash() == Hash#0"]
+			c.Ob("C09-R4", "cachingDB.OpenTrie serves a cached trie only as a copy and only if it (still) hashes to the requested root", c.Position(rs.Ret.Pos()),
+				isCopy && (validated || pushesCopy), "serves "+served+"; guard literals: "+strings.Join(guardLits(rs.State), "; "))
+		}
+		c.Ob("C09-R4", "cachingDB.OpenTrie cache-hit path found", c.FnPos(ot), nhit >= 1, fmt.Sprintf("%d", nhit))
 	})
-	c.Min("C09-R4", 12)
+	c.Min("C09-R4", 14)
+
+	c.Rule("C09-R5", "dirty-tracking protocol: an object is in the dirty set exactly when its onDirty callback has fired (is nil)", func() {
+		sp := c.Prog.Package(c.Pkg("core/state").Types)
+		mark := c.Fn("core/state:(*StateDB).MarkStateObjectDirty")
+		isField := func(v ssa.Value, name string) *ssa.FieldAddr {
+			if u, ok := v.(*ssa.UnOp); ok {
+				v = u.X
+			}
+			if fa, ok := v.(*ssa.FieldAddr); ok && fieldName(fa) == name {
+				return fa
+			}
+			return nil
+		}
+		nFire, nDel, nIns, nDirect := 0, 0, 0, 0
+		for _, fn := range c.SrcFns {
+			if fn.Pkg != sp {
+				continue
+			}
+			// (a) marking goes through the callback only (which disarms it): no direct call of MarkStateObjectDirty
+			for _, cs := range callSitesOf(fn, mark) {
+				if fn.Synthetic != "" {
+					continue
+				}
+				nDirect++
+				c.Ob("C09-R5", shortFn(fn)+" marks an object dirty directly, leaving its callback armed (touch() then records prevDirty=false for a dirty object)", c.Position(cs.Pos()), false, "")
+			}
+			for _, b := range fn.Blocks {
+				for i, ins := range b.Instrs {
+					switch x := ins.(type) {
+					case *ssa.Store:
+						// (b) disarming (onDirty = nil) happens only right after the callback was invoked
+						fa, isFA := x.Addr.(*ssa.FieldAddr)
+						if !isFA || fieldName(fa) != "onDirty" || !isNilConst(x.Val) {
+							continue
+						}
+						nFire++
+						fired := false
+						for _, prev := range b.Instrs[:i] {
+							if call, isCall := prev.(*ssa.Call); isCall && call.Call.StaticCallee() == nil && !call.Call.IsInvoke() {
+								if f2 := isField(call.Call.Value, "onDirty"); f2 != nil && f2.X == fa.X {
+									fired = true
+								}
+							}
+						}
+						c.Ob("C09-R5", shortFn(fn)+": the callback is disarmed only after it was invoked (marked dirty)", c.Position(x.Pos()), fired, "")
+					case *ssa.MapUpdate:
+						if isField(x.Map, "stateObjectsDirty") == nil {
+							continue
+						}
+						nIns++
+						ok, why := fn == mark, ""
+						if shortFn(fn) == "(*core/state.StateDB).Copy" {
+							// the copy inserts its objects as dirty: they must be created disarmed
+							ok = true
+							for _, cs := range callSites(fn, `^stateObject\.deepCopy$`) {
+								if !isNilConst(cs.Common().Args[2]) {
+									ok, why = false, "copied objects are inserted as dirty but carry an armed callback: "+c.termOf(fn, cs.Common().Args[2])
+								}
+							}
+						}
+						c.Ob("C09-R5", shortFn(fn)+": objects enter the dirty set only through the callback (or are created disarmed)", c.Position(x.Pos()), ok, why)
+					case *ssa.Call:
+						bi, isB := x.Call.Value.(*ssa.Builtin)
+						if !isB || bi.Name() != "delete" || isField(x.Call.Args[0], "stateObjectsDirty") == nil {
+							continue
+						}
+						// (d) leaving the dirty set: the object is dropped from the cache or its callback is re-armed
+						nDel++
+						ok := false
+						for _, other := range b.Instrs {
+							switch y := other.(type) {
+							case *ssa.Call:
+								if b2, isB2 := y.Call.Value.(*ssa.Builtin); isB2 && b2.Name() == "delete" && isField(y.Call.Args[0], "stateObjects") != nil {
+									ok = true
+								}
+							case *ssa.Store:
+								if fa, isFA := y.Addr.(*ssa.FieldAddr); isFA && fieldName(fa) == "onDirty" && !isNilConst(y.Val) {
+									ok = true
+								}
+							}
+						}
+						c.Ob("C09-R5", shortFn(fn)+": an object leaving the dirty set is dropped from the cache or gets its callback re-armed", c.Position(x.Pos()), ok,
+							"otherwise later writes to the object are never marked dirty again and are lost at the next commit")
+					}
+				}
+			}
+		}
+		c.Ob("C09-R5", "dirty-tracking sites found", "", nFire >= 6 && nDel >= 4 && nIns >= 2, fmt.Sprintf("%d fire/disarm sites, %d deletions, %d insertions, %d direct marks", nFire, nDel, nIns, nDirect))
+	})
+	c.Min("C09-R5", 12)
 }
 
 func keysOfFn(m map[string]*ssa.Function) []string {
